@@ -264,6 +264,7 @@ def run(fx, tier):
                 key='C02:R-DOM:%s::should_reconnect:set' % cls)
     stream_loss_rules(fx, v, 'C02')
     shutdown_outcome_rule(fx, v, 'C02')
+    sentry_rules(fx, v, 'C02')
     # an unacknowledged exchange is never ended by anybody but its acknowledgement, a re-send or cancel()
     from c04 import waiter_completion_rules
     v.rule('R-OWN', 'who may complete a parked reply handler, and with what')
@@ -388,6 +389,60 @@ def shutdown_outcome_rule(fx, v, prop='C02', rid='R-DOM'):
                 key=prop + ':R-DOM:shutdown_op:%s:outcome' % f.tag, where=f.file)
     if n == 0 and not v.violations:
         raise AnalysisBroken('shutdown_op continuations not found')
+
+
+def sentry_rules(fx, v, prop='C02', rid='R-DOM'):
+    """a lost acknowledgement on a live connection is recovered only by the sentry: replies::any_expired() is true when some
+    waiter is OLDER than the limit (age = now - registration time, compared `>` / `>=` with max_reply_time), the sentry then
+    disconnects, and after a successful disconnect it - like the reader after its internal DISCONNECT - goes on (perform),
+    it does not retire."""
+    n = 0
+    for f in fx.functions(cls='replies', name='any_expired'):
+        lams = [g for g in fx.fns if g.tu == f.tu and g.lam and g.parent == f.id]
+        ok, why = False, 'predicate lambda not found'
+        for g in lams:
+            rets = [x for _, _, _, x in g.elements() if x.get('k') == 'ret']
+            if len(rets) != 1:
+                continue
+            cm = comparison(origin(g, rets[0].get('e')), 'T')
+            if not cm:
+                why = 'predicate is not a comparison'
+                continue
+            op, l_, r_ = cm
+            flip = {'<': '>', '>': '<', '<=': '>=', '>=': '<='}
+            def is_age(x):
+                x = core(x)
+                if not (isinstance(x, dict) and x.get('k') == 'call' and callee_name(x) == 'operator-' and len(x.get('args', [])) == 2):
+                    return False
+                a0, a1 = core(x['args'][0]), core(x['args'][1])
+                return isinstance(a0, dict) and a0.get('k') == 'ref' and a0.get('n') == 'now' \
+                    and isinstance(a1, dict) and a1.get('k') == 'call' and callee_name(a1) == 'time'
+            def is_limit(x):
+                return contains(x, lambda m: m.get('k') == 'ref' and m.get('n') == 'max_reply_time') and \
+                    not contains(x, lambda m: m.get('k') == 'un' and m.get('op') == '-')
+            if is_age(l_) and is_limit(r_):
+                ok = op in ('>', '>=')
+            elif is_age(r_) and is_limit(l_):
+                ok = flip.get(op) in ('>', '>=')
+            why = 'a waiter counts as expired when (now - its registration time) %s max_reply_time' % op
+        n += 1
+        v.saw(f)
+        v.check(ok, rid, 'replies::any_expired [%s]' % f.tu, why, key=prop + ':R-DOM:replies::any_expired', where=f.file)
+    for cls in ('sentry_op', 'read_message_op'):
+        for f in fx.functions(cls=cls, name='operator()', tag='on_disconnect'):
+            v.saw(f)
+            okp, seen_ok = True, 0
+            for pi, p in enumerate(op_paths(fx, f)):
+                if p.ec_success() or p.ec_is('failed') is False:
+                    seen_ok += 1
+                    if not (p.calls('perform') or p.entered('perform')) or p.entered('complete'):
+                        okp = False
+            n += 1
+            v.check(okp and seen_ok > 0, rid, '%s::operator()(on_disconnect)%s [%s]' % (cls, f.inst()[:25], f.tu),
+                    'after its own DISCONNECT went through without error the loop goes on (perform), it does not retire',
+                    key=prop + ':R-DOM:%s:on_disconnect-goes-on' % cls, where=f.file)
+    if n < 3 and not v.violations:
+        raise AnalysisBroken('sentry / any_expired anchors not found (%d)' % n)
 
 
 def raw_io_rule(fx, v, prop='C02', rid='R-VALUES'):
